@@ -138,9 +138,11 @@ class World:
                 bad = t.sl_Status.FAIL if v14 else t.EmberStatus.ERR_FATAL
                 nj = t.sl_Status.NOT_JOINED if v14 else t.EmberStatus.NOT_JOINED
                 if name == "networkState":
-                    fut.set_result((t.EmberNetworkStatus.JOINED_NETWORK if r == "joined" else t.EmberNetworkStatus.NO_NETWORK,))
+                    # (joined without a parent is not "the network is up": bring-up goes ahead as from any other state)
+                    fut.set_result(({"joined": t.EmberNetworkStatus.JOINED_NETWORK, "noparent": t.EmberNetworkStatus.JOINED_NETWORK_NO_PARENT,
+                                     "leaving": t.EmberNetworkStatus.LEAVING_NETWORK}.get(r, t.EmberNetworkStatus.NO_NETWORK),))
                 else:
-                    st = {"ok": ok, "refused": bad, "notjoined": nj, "joined": bad}[r]
+                    st = {"ok": ok, "refused": bad, "notjoined": nj, "joined": bad, "noparent": bad, "leaving": bad}[r]
                     fut.set_result((st,))
             self.loop.settle()
         elif k == "E":
@@ -220,11 +222,11 @@ def run_script(version, script):
                 r = ev[2:]
                 if name == "networkState":
                     r = "joined" if r == "joined" else "ok"
-                elif r == "joined":
+                elif r in ("joined", "noparent", "leaving"):
                     r = "refused"
                 mev.append(f"R={op}={r}")
                 w.attr.append((op, name))
-                w.do(ev if name == "networkState" or ev != "R=joined" else "R=refused")
+                w.do(ev if name == "networkState" or ev not in ("R=joined", "R=noparent", "R=leaving") else "R=refused")
                 w.do("W"); mev.append("W=1/1000"); w.attr.append(None)
                 continue
             w.do(ev)
@@ -290,6 +292,9 @@ def oracle(w, mev, timeouts):
                     if got[: len(base)] != base:
                         return f"scan {op} returned {got}, the result callbacks between issue and completion were {base}"
             else:
+                if res == "notstarted" and o["kind"] == "up" and o["resp"] != "joined":
+                    return (f"bring-up {op} ended as 'already running' without sending the network-init command although the NCP did not report "
+                            "the joined state")
                 if res == "ok[]":
                     if o["resp"] != "ok" or not o["event_after_reg"]:
                         return (f"{o['kind']} operation {op} completed although " +
@@ -361,7 +366,7 @@ def scripts(ctx):
         L = ctx.n(3, 5)
         for n in range(1, L + 1):
             # (events of the second EZSP object: in every word up to length 3; the longer words of the thorough tier go without)
-            alpha = alpha0 + (["Z=up", "Z=down"] if n <= 3 else [])
+            alpha = alpha0 + (["Z=up", "Z=down", "R=noparent", "R=leaving"] if n <= 3 else [])
             for w in itertools.product(alpha, repeat=n):
                 out.append([f"B=1={kind}"] + list(w))
     alpha = ["R=ok", "R=refused", "I", "J", "X=1", "X=0", "C=1", "E=up"]
@@ -389,7 +394,7 @@ def scripts(ctx):
                 nops += 1
                 sc.append(f"B={nops}={rng.choice(['form', 'leave', 'up', 'scan'])}")
             elif x < 0.45:
-                sc.append("R=" + rng.choice(["ok", "ok", "ok", "refused", "notjoined", "joined"]))
+                sc.append("R=" + rng.choice(["ok", "ok", "ok", "refused", "notjoined", "joined", "noparent", "leaving"]))
             elif x < 0.65:
                 sc.append(rng.choice(["E=up", "E=down", "E=other", "E=up", "E=down", "Z=up", "Z=down"]))
             elif x < 0.75:
